@@ -829,6 +829,30 @@ def check_flow(prog: Program, rep: Report):
     rep.check("inspect.Parameter.empty" in names, "R10.4", "typelib.py.inspection._UNRESOLVABLE", prog.module("typelib.py.inspection").relpath, "inspect.Parameter.empty is unresolvable, so unannotated parameters get the no-op routine", detail="empty")
 
 
+def check_signature_subject(prog: Program, rep: Report):
+    """The signature that is bound is the signature of the very object that is called."""
+    f = prog.function(f"{MOD}._get_binding")
+    ok = False
+    for p in P.paths_of(prog, f):
+        for c in p.calls():
+            if T.refname(c[1]) in ("typelib.py.inspection.cached_signature", "typelib.py.inspection.signature", "inspect.signature") and c[2] == (("param", "obj"),):
+                ok = True
+    rep.check(ok, "R10.5", f.qualname, f.loc, "the binding is computed from the signature of obj itself", "_get_binding does not take the signature of the callable it is given", detail="factory")
+    sig = prog.function("typelib.py.inspection.signature")
+    obj = ("param", sig.params[0])
+    bad = []
+    n = 0
+    for p, r in P.returns(P.paths_of(prog, sig)):
+        for c in [r] + T.calls_in(r):
+            if T.is_call_to(c, "inspect.signature"):
+                n += 1
+                if c[2][:1] != (obj,):
+                    bad.append(T.show(c)[:80])
+    rep.check(n > 0 and not bad, "R10.5", sig.qualname, sig.loc, "inspect.signature is applied to the callable itself", f"inspect.signature is applied to something other than the callable that will be called ({bad[:1]}): for a bound method of a decorated function the unwrapped function still has `self`, so every positional converter shifts by one", detail="subject")
+    cs = P.module_term(prog, prog.module("typelib.py.inspection"), "cached_signature")
+    rep.check(T.is_call_to(cs, "functools.cache") and cs[2] == (("ref", "typelib.py.inspection.signature"),), "R10.5", "typelib.py.inspection.cached_signature", sig.loc, "cached_signature memoises signature() itself", "cached_signature is not compat.cache(signature)", detail="cached")
+
+
 def run(prog: Program, rep: Report, tier: str):
     global MAXN
     MAXN = 3 if tier == "thorough" else 2
@@ -836,6 +860,7 @@ def run(prog: Program, rep: Report, tier: str):
     rep.rule("R10.2", "_get_binding per-kind facts: own-annotation unmarshaller registered by index and name, own flag, varpos/varkwd, binding flow", floor=15)
     rep.rule("R10.3", "all 32 matrix rows route every accepted call shape to the parameter's own unmarshaller", floor=33)
     rep.rule("R10.4", "bind/wrap/BoundRoutine dataflow and metadata", floor=11)
+    rep.rule("R10.5", "the signature bound is the signature of the callable that is called", floor=3)
     summaries = binder_summaries(prog, rep)
     f, facts = factory_facts(prog, rep)
     if all(k in facts for k in KINDS):
@@ -847,3 +872,4 @@ def run(prog: Program, rep: Report, tier: str):
         rows = matrix(prog)
         check_rows(prog, rep, summaries, facts, rows)
     check_flow(prog, rep)
+    check_signature_subject(prog, rep)
